@@ -46,6 +46,7 @@ type PropConfig struct {
 	Outside     []string  `json:"outside_the_claim"`
 	Jobs        []JobSpec `json:"jobs"`
 	Rule        string    `json:"rule"`
+	PreCmd      string    `json:"pre_cmd"` // run (bash, cwd /verif) before the jobs: regenerates inputs from /repo
 }
 
 type Finding struct {
@@ -141,6 +142,15 @@ func cmdCheck(args []string) int {
 	if err := json.Unmarshal(b, &cfg); err != nil {
 		fmt.Println("INCONCLUSIVE: bad configuration:", err)
 		return 2
+	}
+	if cfg.PreCmd != "" {
+		pc := exec.Command("bash", "-c", cfg.PreCmd)
+		pc.Dir = verifRoot
+		pc.Env = goEnv()
+		if out, err := pc.CombinedOutput(); err != nil {
+			fmt.Printf("INCONCLUSIVE: preparation step failed: %v: %s\n", err, out)
+			return 2
+		}
 	}
 	ff := loadFindings()
 	var knownIDs []string
